@@ -7,7 +7,11 @@ ALPHABET = ['a', '1', '"s"', '(', ')', '{', '}', '[', ']', ',', ';', ':', '?', '
 MUT_TOKENS = ALPHABET + ['b', '-', '--', '*', '&&', '||', '<', '/=', '+=', 'this', 'typeof', 'while', 'do',
                          'break', 'case', 'default', 'switch', 'try', 'catch', 'finally', 'throw', 'with',
                          'instanceof', 'delete', 'void', 'null', 'set', '0', '.5', "'t'", 'continue', 'debugger',
-                         '===', '>>>', '%', '~', 'L', 'x']
+                         '===', '>>>', '%', '~', 'L', 'x',
+                         # neither white space nor a token in ES5: controls Python counts as white space, a zero
+                         # width space; a letter outside the BMP; identifiers with joiners; odd regex flags
+                         '\x85', '\x1c', '\x1f', u'\u200b', u'\U00010400', u'a\U0001d400', u'a\u200c', u'\u200d',
+                         u'\u212b', u'A\u030a', u'\u2126']
 
 
 def count_strings(n):
